@@ -285,9 +285,19 @@ def gen_steps(rng, lib, n, opts):
     return steps
 
 
+NAME_HOSTILE = [u"<", u">", u"&", u"\"", u"'", u"]]>", u"é", u"€", u"\U0001f600", u"<![CDATA[", u"&amp;", u"<b>"]
+
+
+def hostile_suffix(rng, opts):
+    if opts.get("hostile_names") and rng.random() < 0.5:
+        return " " + "".join(rng.choice(NAME_HOSTILE) for _ in range(rng.randint(1, 3))) + " q"
+    return ""
+
+
 def gen_scenario(rng, lib, sid, opts):
     n = rng.randint(opts["min_steps"], opts["max_steps"])
-    return {"kind": "scenario", "id": sid, "name": "sc %s %s" % (sid, rng.choice(["alpha", "beta", "gamma"])),
+    return {"kind": "scenario", "id": sid,
+            "name": "sc %s %s%s" % (sid, rng.choice(["alpha", "beta", "gamma"]), hostile_suffix(rng, opts)),
             "tags": gen_tags(rng, opts["tag_pool"], opts["p_tag"]),
             "steps": gen_steps(rng, lib, n, opts),
             "kwd": rng.choice(["Scenario", "Scenario", "Example"])}
@@ -372,7 +382,7 @@ def gen_feature(rng, lib, fi, opts):
     fid = "F%d" % fi
     sub = rng.choice(["", "", "", "area/"])
     return {"id": fid, "path": "features/%sf%d.feature" % (sub, fi),
-            "name": "feat %s" % fid,
+            "name": "feat %s%s" % (fid, hostile_suffix(rng, opts)),
             "tags": gen_tags(rng, opts["tag_pool"], opts["p_tag"]),
             "description": ["some description"] if rng.random() < 0.3 else [],
             "background": gen_background(rng, lib, opts),
@@ -658,6 +668,7 @@ def gen_world(seed, overrides=None, profile=None):
                 p_outline=rng.choice([0.0, 0.2, 0.35]),
                 max_items=so["max_items"], min_steps=so["min_steps"],
                 max_steps=so["max_steps"])
+    opts["hostile_names"] = bool(dims.get("hostile"))
     opts.update(dims.get("opts", {}))
     nfeat = rng.randint(*so["nfeat"])
     feats = [gen_feature(rng, lib, i, opts) for i in range(nfeat)]
@@ -682,6 +693,10 @@ def gen_actions(rng, world, dims, where):
             acts.append({"a": "print", "stream": "stdout"})
         if rng.random() < 0.3:
             acts.append({"a": "print", "stream": "stderr"})
+        if dims["hostile"]:
+            for a in acts:
+                if a["a"] == "print" and rng.random() < 0.5:
+                    a["text"] = " " + "".join(rng.choice(HOSTILE) for _ in range(rng.randint(1, 3))) + " z"
         if rng.random() < 0.3:
             acts.append({"a": "log", "logger": rng.choice(["", "foo", "foo.bar", "baz"]),
                          "level": rng.choice(["DEBUG", "INFO", "WARNING", "ERROR"])})
@@ -833,6 +848,9 @@ def gen_config(rng, world, dims):
     # at most one formatter may write to the terminal
     if rng.random() < 0.4:
         fmts[rng.randrange(len(fmts))][1] = None
+    if dims.get("rec"):
+        fmts.insert(0, ["rec", "out/rec_first.txt"])
+        fmts.append(["rec", "out/rec_last.txt"])
     cfg["formatters"] = fmts
     if rng.random() < 0.2:
         cfg["logging_level"] = rng.choice(["DEBUG", "WARNING", "ERROR"])
@@ -847,10 +865,8 @@ def gen_config(rng, world, dims):
             cfg["userdata"]["behave.reporter.junit.show_timestamp"] = rng.choice(["true", "false"])
         if rng.random() < 0.3:
             cfg["userdata"]["behave.reporter.junit.show_hostname"] = rng.choice(["true", "false"])
-    if rng.random() < 0.15:
-        cfg["userdata"]["behave.reporter.summary.format"] = rng.choice(["v1", "v1A", "v1B", "v2", "v3"]) \
-            if False else None
-        cfg["userdata"] = {k: v for k, v in cfg["userdata"].items() if v is not None}
+    if rng.random() < dims.get("p_summary_format", 0.15):
+        cfg["userdata"]["behave.reporter.summary.output_format"] = rng.choice(["v1", "v1A", "v1B", "v2", "v3"])
     # paths
     paths = None
     if dims["locsel"]:
@@ -921,7 +937,9 @@ def build_argv(world):
     argv.append("--color=always" if cfg["color"] else "--no-color")
     argv.append("--no-snippets")
     paths = cfg["paths"]
-    if paths is None:
+    if cfg.get("paths_raw"):
+        argv += cfg["paths_raw"]
+    elif paths is None:
         argv.append("features")
     elif cfg.get("listfile"):
         argv.append("@" + cfg["listfile"]["path"])
